@@ -18,6 +18,7 @@ func staticCfg() genCfg {
 	c.sendAllRate = 3
 	c.origins = true
 	c.varBounds = true
+	c.deepInfix = true
 	return c
 }
 
@@ -48,7 +49,13 @@ func collectVarUses(x any, out *[]J) {
 func nameEdits(r *rand.Rand, c *Case) int {
 	n := 0
 	for k := r.Intn(3); k > 0; k-- {
-		switch r.Intn(4) {
+		switch r.Intn(5) {
+		case 4: // swap two declarations (a use inside an origin may now precede its declaration)
+			if len(c.Decls) >= 2 {
+				i, j := r.Intn(len(c.Decls)), r.Intn(len(c.Decls))
+				c.Decls[i], c.Decls[j] = c.Decls[j], c.Decls[i]
+				n++
+			}
 		case 0: // delete a declaration
 			if len(c.Decls) > 0 {
 				i := r.Intn(len(c.Decls))
